@@ -88,9 +88,10 @@ def attr_byte_roles(attrs):
     return roles
 
 
-def keystore_text(key_id: bytes, data1: bytes, data2: bytes, mode="NONE", style=0, extra=None):
+def keystore_text(key_id: bytes, data1: bytes, data2: bytes, mode="NONE", style=0, extra=None, order=(0, 1, 2, 3)):
     esc = lambda b: base64.b64encode(b).decode().replace("=", "%3d")  # noqa: E731
-    ced = f"keyId={esc(key_id)}:data1={esc(data1)}:data2={esc(data2)}:version=1"
+    parts = [f"keyId={esc(key_id)}", f"data1={esc(data1)}", f"data2={esc(data2)}", "version=1"]
+    ced = ":".join(parts[i] for i in order)
     lines = ['.encoding = "UTF-8"', 'includeKeyCache = "FALSE"']
     if mode is not None:
         lines.append(f'mode = "{mode}"')
